@@ -29,6 +29,7 @@ int ops_table(char **args, int na);
 int ops_codec(char **args, int na);
 int ops_merger(char **args, int na);
 int ops_mt(char **args, int na);
+int ops_big(char **args, int na);
 int ops_res(char **args, int na);
 int ops_sorter(char **args, int na);
 int ops_fileset(char **args, int na);
